@@ -20,7 +20,8 @@ RULE = ("part 'history': random histories over log / add_destinations(1-3 new de
         "(length <= 40, a share with 1001-1100 messages logged before the first add), each in a fresh process, compared with a 30-line "
         "sequential reference model that predicts every destination's exact tape (buffered messages once, in order, ahead of later "
         "ones, only to the destinations of the first add; later destinations only later messages; nothing after removal; global "
-        "fields set before delivery present); half of the never-removed destinations are distinct objects that compare equal. part 'handover': 1-2 logger threads emit uniquely numbered messages (some inside an "
+        "fields set before delivery present); half of the never-removed destinations are distinct objects that compare equal; in a quarter of the histories the wall clock "
+        "steps backwards by ten minutes every 2-5 readings. part 'handover': 1-2 logger threads emit uniquely numbered messages (some inside an "
         "action) while another thread performs the first add_destinations, each schedule in a fresh process under the line-granular "
         "scheduler with LINE events on eliot/_output.py: for every priority order ALL one-preemption schedules plus sampled "
         "2-3-preemption ones. Oracle: every message whose logging call returned is on the destination's tape exactly once, per-thread "
